@@ -86,7 +86,10 @@ KINDS = ["text", "no_trailing_newline", "pause_mid_line", "pause_mid_line_twice"
          "byte_at_a_time", "empty", "big_incompressible", "big_binary_one_line", "short_then_long"]
 
 
-def e2e_scenario(bins, idx, ntargets, rng, kinds=None, failing=False):
+def e2e_scenario(bins, idx, ntargets, rng, kinds=None, failing=False, listener=False, repeat=False):
+    """listener: a `log tail` listener is attached while the run writes (what is stored must not depend on it).
+    repeat: the command is given twice (`-c build build`): the same (command, target) executes twice in one run and writes
+    less the second time; the stored log is the one of the execution that ran last."""
     names = runlib.NAMES
     targets = [{"path": names[i % len(names)] + ("" if i < len(names) else str(i))} for i in range(ntargets)]
     fx = fixture.Fixture(bins, targets)
@@ -97,8 +100,12 @@ def e2e_scenario(bins, idx, ntargets, rng, kinds=None, failing=False):
             for stream in ("stdout", "stderr"):
                 kind = rng.choice(kinds or KINDS)
                 st, data = payload(kind, rng, "%s:%s" % (t["path"], stream))
+                if repeat:
+                    first = "".join("first pass <%s:%s> line %d %s\n" % (t["path"], stream, i, "z" * (i % 50)) for i in range(rng.choice([40, 400, 3000])))
+                    second = "second pass <%s:%s>%s" % (t["path"], stream, rng.choice(["\n", "", "\nshort\n"]))
+                    st, data, kind = [{"op": "out_by_count", "counter": stream, "texts": [first, second]}], second.encode(), "repeat"
                 for s in st:
-                    if s.get("op") == "out":
+                    if s.get("op") in ("out", "out_by_count"):
                         s["stream"] = stream
                 steps_stream = st
                 written[(t["path"], stream)] = (data, kind)
@@ -126,7 +133,15 @@ def e2e_scenario(bins, idx, ntargets, rng, kinds=None, failing=False):
             with open(os.path.join(fx.hdir, "scripts", key + ".json"), "w") as fh:
                 json.dump(sc, fh)
         fx.git_init()
-        res = fx.monorail(["run", "-c", "build"], timeout=240)
+        lst = None
+        if listener:
+            import tail as taillib
+            lst = taillib.Listener(fx, [{"stdout": True, "stderr": True}, {"stdout": True}, {"stderr": True, "targets": [targets[0]["path"]]}][idx % 3])
+            if not lst.ready:
+                raise vlib.ToolError("listener did not come up")
+        res = fx.monorail(["run", "-c", "build"] + (["build"] if repeat else []), timeout=240)
+        if lst is not None:
+            lst.kill()
         tasks = []
         run_dir = None
         if isinstance(res["out"], dict) and "out" in res["out"]:
@@ -252,6 +267,16 @@ def run(pid, tier):
         if i in (3, 4):
             # a group in which one task fails while megabytes of output are still queued for the compressor
             return e2e_scenario(bins, i, 6 if i == 3 else 3, rr, kinds=["megabytes_text", "big_incompressible"], failing=True)
+        if i == 5:
+            # a listener is attached while tasks write output that ends in the middle of a line
+            return e2e_scenario(bins, i, 3, rr, kinds=["no_trailing_newline", "pause_mid_line"], listener=True)
+        if i == 6:
+            # the same (command, target) executes twice in one run, writing less the second time
+            return e2e_scenario(bins, i, 3, rr, repeat=True)
+        if i > 9 and i % 9 == 0:
+            return e2e_scenario(bins, i, sizes[i % len(sizes)], rr, listener=True)
+        if i > 9 and i % 11 == 0:
+            return e2e_scenario(bins, i, 1 + i % 4, rr, repeat=True)
         return e2e_scenario(bins, i, sizes[i % len(sizes)], rr)
     with ThreadPoolExecutor(max_workers=6) as ex:
         e2e = list(ex.map(one, range(ne)))
